@@ -477,7 +477,7 @@ class Rng:
             b = self.below(256)
             v = int.from_bytes(bytes([b] * width), "little")
         elif k == 5:
-            e = self.choice([8, 16, 32, 64])
+            e = self.choice([7, 8, 15, 16, 31, 32, 63, 64])      # byte-width and sign boundaries
             e = min(e, bits)
             v = ((1 << e) + self.below(5) - 2) & ((1 << bits) - 1)
         else:
